@@ -17,7 +17,9 @@ pub open spec fn fold_mp<TC: Configuration>(hash_val: AzksValue, label: NodeLabe
     }
 }
 pub open spec fn mem_ok<TC: Configuration>(root: Digest, mp: MembershipProof) -> bool {
-    TC::spec_root(fold_mp::<TC>(mp.hash_val, mp.label, mp.sibling_proofs@, mp.sibling_proofs@.len() as int).0) == root
+    // the fold ends AT THE ROOT LABEL (repair of D15: the root hash commits to a value, not to a label) and in the root hash
+    is_root(fold_mp::<TC>(mp.hash_val, mp.label, mp.sibling_proofs@, mp.sibling_proofs@.len() as int).1)
+    && TC::spec_root(fold_mp::<TC>(mp.hash_val, mp.label, mp.sibling_proofs@, mp.sibling_proofs@.len() as int).0) == root
 }
 // structural soundness of a non-membership proof, from the property statement:
 // "anchored at the deepest matching node" = the anchor is a prefix of the label and NO child of the anchor is
